@@ -798,14 +798,46 @@ func refFlow(r *Run, wantHF, wantImg bool) {
 				return
 			}
 			cal := staticCallee(c)
+			var dyn map[*ssa.Function]bool
+			if cal == nil && len(helpers) > 0 {
+				// a call through a function value (a field of a part-kind descriptor holding the reference
+				// helper as a method expression): resolved by the VTA call graph
+				if _, isB := c.Common().Value.(*ssa.Builtin); !isB && !c.Common().IsInvoke() {
+					dyn = p.dynamicCallees(fn, c)
+				}
+			}
 			for _, h := range helpers {
-				if h.fn != cal {
+				if h.fn != cal && !dyn[h.fn] {
+					continue
+				}
+				if dyn[h.fn] && h.pi >= len(c.Common().Args) {
 					continue
 				}
 				nSites++
 				arg := c.Common().Args[h.pi]
 				okFlow := false
 				skipped := false
+				if dyn[h.fn] {
+					// The helper is chosen by a part-kind descriptor (kind.addReference), and so is the
+					// relationship type (kind.relType).  The reference gets the right kind of id iff (1) every
+					// descriptor pairs a relationship type with the reference helper of the same kind and
+					// (2) the id handed over is the id of the relationship this function creates.
+					consistent, whyD := descriptorKindsAgree(p, fn, c, func() map[*ssa.Function]string {
+						m := map[*ssa.Function]string{}
+						for _, h2 := range helpers {
+							m[h2.fn] = h2.kind
+						}
+						return m
+					}())
+					for _, rl := range byFn[fn] {
+						if rl.Via == nil && rl.ID.Val == arg && mustPassThrough(fn, c, []ssa.Instruction{rl.ID}) {
+							okFlow = true
+						}
+					}
+					why := fmt.Sprintf("%s passes an id to the reference helper selected by its part-kind descriptor; it must be the id stored in the relationship created by the same call, and each descriptor must pair the %s relationship type with the %s reference helper (%s)", shortName(fn), h.kind, h.kind, whyD)
+					r.Check("ref-flow", fmt.Sprintf("%s:%s-reference", shortName(fn), h.kind), c.Pos(), okFlow && consistent, why)
+					continue
+				}
 				for _, rl := range byFn[fn] {
 					if relKind(rl.Type) != h.kind {
 						continue
@@ -1538,4 +1570,91 @@ func ownerViaCallers(p *Program, parts []partStore, fn *ssa.Function, depth int)
 		}
 	}
 	return ""
+}
+
+// descriptorKindsAgree: the dynamic call c in fn goes through a function-valued field of a
+// descriptor object handed to fn as a parameter (or a package-level variable).  Every package-level
+// descriptor that reaches that parameter must hold, side by side, a relationship-type constant and a
+// reference helper of the same kind (…/header with the header-reference helper, …/footer with the
+// footer-reference helper).
+func descriptorKindsAgree(p *Program, fn *ssa.Function, c ssa.CallInstruction, kinds map[*ssa.Function]string) (bool, string) {
+	ld, ok := c.Common().Value.(*ssa.UnOp)
+	if !ok {
+		return false, "the function value is not read from a descriptor field"
+	}
+	fa, ok := ld.X.(*ssa.FieldAddr)
+	if !ok {
+		return false, "the function value is not read from a descriptor field"
+	}
+	var globals []*ssa.Global
+	switch x := fa.X.(type) {
+	case *ssa.Global:
+		globals = append(globals, x)
+	case *ssa.Parameter:
+		idx := paramIndex(fn, x)
+		for _, cs := range staticCallSites(p, fn) {
+			if idx < 0 || idx >= len(cs.Common().Args) {
+				return false, "descriptor argument not found at a call site"
+			}
+			g, isG := cs.Common().Args[idx].(*ssa.Global)
+			if !isG {
+				return false, fmt.Sprintf("the descriptor handed in at %s is not a package-level variable", p.pos(cs.Pos()))
+			}
+			globals = append(globals, g)
+		}
+	default:
+		return false, "the descriptor is neither a parameter nor a package-level variable"
+	}
+	if len(globals) == 0 {
+		return false, "no descriptor reaches the call"
+	}
+	n := 0
+	for _, g := range globals {
+		relK, helpK := "", ""
+		writers := 0
+		for _, f := range p.ModFuncs() {
+			allInstrs(f, func(in ssa.Instruction) {
+				st, ok := in.(*ssa.Store)
+				if !ok {
+					return
+				}
+				fa2, ok := st.Addr.(*ssa.FieldAddr)
+				if !ok || fa2.X != ssa.Value(g) {
+					return
+				}
+				if f.Name() != "init" {
+					writers++ // a descriptor that is modified after initialisation proves nothing
+				}
+				if cs, ok := constString(st.Val); ok && strings.Contains(cs, "/relationships/") {
+					relK = relKind(cs)
+				}
+				var target *ssa.Function
+				switch v := st.Val.(type) {
+				case *ssa.Function:
+					target = v
+				case *ssa.MakeClosure:
+					target, _ = v.Fn.(*ssa.Function)
+				}
+				for d := 0; d < 3 && target != nil && target.Synthetic != "" && !p.inModule(target); d++ {
+					var inner *ssa.Function
+					allInstrs(target, func(in2 ssa.Instruction) {
+						if ci, ok := in2.(ssa.CallInstruction); ok {
+							if h := ci.Common().StaticCallee(); h != nil {
+								inner = h
+							}
+						}
+					})
+					target = inner
+				}
+				if k, ok := kinds[target]; ok && target != nil {
+					helpK = k
+				}
+			})
+		}
+		if writers > 0 || relK == "" || helpK == "" || relK != helpK {
+			return false, fmt.Sprintf("descriptor %s pairs relationship kind %q with the %q reference helper", g.Name(), relK, helpK)
+		}
+		n++
+	}
+	return true, fmt.Sprintf("%d descriptor(s) checked", n)
 }
